@@ -22,6 +22,8 @@ pub struct PropSpec {
     pub thorough_boost: f64,
 }
 
+/// every large framed-size boundary (sc_crypt::big_lens)
+const BIG_LENS: u64 = 161;
 /// (group, scheme) x every composite-boundary message length (env::composite_lens)
 const COMPOSITE_CELLS: u64 = 6 * 141;
 fn cs(scenario: &'static dyn crate::driver::Scenario, class: &'static str, quick: u64, thorough: u64, exhaustive: bool) -> ClassSpec {
@@ -132,8 +134,8 @@ pub fn spec(id: &str) -> Option<PropSpec> {
             )
         }),
         "C11" => Some(base(
-            vec![cs(&CRYPT, "sc-roundtrip", 1200, 24000, false), cs(&CRYPT, "sc-tamper", 1500, 30000, false), cs(&CRYPT, "sc-bitflip-all", 6, 36, false)],
-            "cases = (group, scheme, message length {0..40, 100..140, LEB128 boundaries 127/128, 16383/16384, 64 KiB}, codec at rest, crash/duplicate faults | relay perturbation kind {u, v bit/length/prefix, w, label, splices, in-flight truncation/extension/bit flip} | every single bit of a short ciphertext in `sc-bitflip-all`); \
+            vec![cs(&CRYPT, "sc-roundtrip", 1200, 24000, false), cs(&CRYPT, "sc-roundtrip-big", BIG_LENS, BIG_LENS * 6, true), cs(&CRYPT, "sc-tamper", 1500, 30000, false), cs(&CRYPT, "sc-bitflip-all", 6, 36, false)],
+            "cases = (group, scheme, message length {0..40, 100..140, LEB128 boundaries 127/128, 16383/16384, 64 KiB; class `sc-roundtrip-big`: all 161 lengths whose framed size is within 1 of 2^16..2^22 or of 168*2^j / 136*2^j, j=7..14}, codec at rest, crash/duplicate faults | relay perturbation kind {u, v bit/length/prefix, w, label, splices, in-flight truncation/extension/bit flip} | every single bit of a short ciphertext in `sc-bitflip-all`); \
              non-trivial = any altered ciphertext or a run with crash/duplicate faults",
             vec!["cur-blst"],
         )),
@@ -143,8 +145,8 @@ pub fn spec(id: &str) -> Option<PropSpec> {
             vec!["cur-blst"],
         )),
         "C13" => Some(base(
-            vec![cs(&CRYPT, "tl-beacon", 1000, 15000, false), cs(&CRYPT, "tl-tamper", 2400, 36000, false), cs(&CRYPT, "tl-bitflip-all", 12, 54, false)],
-            "cases = (group, scheme, beacon kind {whole key, t-of-n recombined over a lossy/duplicating transport}, message length, identifier kind, fault-script length | perturbation kind distinguishing header, authenticated prefix of w and padding | every single bit in `tl-bitflip-all`); non-trivial = recombined beacons, runs with faults, all altered ciphertexts",
+            vec![cs(&CRYPT, "tl-beacon", 1000, 15000, false), cs(&CRYPT, "tl-beacon-big", BIG_LENS, BIG_LENS * 6, true), cs(&CRYPT, "tl-tamper", 2400, 36000, false), cs(&CRYPT, "tl-bitflip-all", 12, 54, false)],
+            "cases = (group, scheme, beacon kind {whole key, t-of-n recombined over a lossy/duplicating transport}, message length (class `tl-beacon-big`: all 161 lengths whose framed size is within 1 of 2^16..2^22 or of 168*2^j / 136*2^j, j=7..14), identifier kind, fault-script length | perturbation kind distinguishing header, authenticated prefix of w and padding, incl. in-place rewrites of the length prefix to values around 2^7..2^128 | every single bit in `tl-bitflip-all`); non-trivial = recombined beacons, runs with faults, all altered ciphertexts",
             vec!["cur-blst"],
         )),
         "C14" => Some(base(
@@ -266,8 +268,8 @@ pub fn spec(id: &str) -> Option<PropSpec> {
             needs_entropy: true,
             needs_clock: true,
             ..base(
-                vec![cs(&ENTROPY, "history", 360, 360, false), cs(&ENTROPY, "processes", 24, 48, false)],
-                "cases = (randomized entry point, group, mode in {one call sequence (8N calls), 8 caller threads, 4 process incarnations, two device seeds, all entry points interleaved and compared with each other, two child processes seam on/off}); every run is also compared with the earlier runs on its worker thread; \
+                vec![cs(&ENTROPY, "history", 360, 360, false), cs(&ENTROPY, "marathon", 10, 10, false), cs(&ENTROPY, "processes", 24, 48, false)],
+                "cases = (randomized entry point, group, mode in {one call sequence (8N calls), 8 caller threads, 4 process incarnations, two device seeds, all entry points interleaved and compared with each other, two child processes seam on/off, `marathon`: 2^18+4 (quick) / 2^22+4 (thorough) calls of one cheap entry point on one thread}); every run is also compared with the earlier runs on its worker thread; \
                  N identical-argument calls per case (quick 256, thorough 4096) at a frozen simulated clock; every exposed ephemeral (u, masks, c1, recomputed r1, commitment, secret, key, challenge, share values) must be pairwise distinct; all cases are non-trivial",
                 vec!["cur-blst"],
             )
